@@ -78,3 +78,20 @@ Example ops_wf_example :
   ops_wf [Api [MNewNode None]; Api [MNewVariable]; Api [MFindOrAddBinding 0 0; MAddOrigin 0 0; MAddSourceSet 0 0 []];
           Ask (0, [0]); Api [MNewNode None; MConnect 0 1]; Ask (1, [0]); Api [MSetCondition 1 (Some 0)]; Ask (1, [0])].
 Proof. repeat constructor. Qed.
+
+(* ------------------------------------------------------------------------------------------------
+   The same statement with the REAL memoised solver of solver.cc (coq/Typegraph/Solver.v: state memo with
+   provisional entries, path cache, cycle rule) in place of the abstract memo laws: for every history all of
+   whose queried graphs are acyclic and condition-free, the long-lived solver's run equals the fresh-solver
+   reference run, and every answer is the declarative Expl truth of C07 on the graph at that point.
+   (On cyclic or conditional graphs the memo laws fail for the real memo — C07's refuted clauses — and the
+   property is decided by the replica differential only.) *)
+From PV Require Import Typegraph.HistorySolver.
+
+Theorem history_independent_real_solver :
+  forall (ops : list hop) (g : graph),
+    ops_wf ops -> asks_ok g ops ->
+    hrun tbl_repo Solver.sstate_empty ask (mkSt g None) ops = href Solver.sstate_empty ask g ops
+    /\ exact_run g ops (hrun tbl_repo Solver.sstate_empty ask (mkSt g None) ops).
+Proof. intros ops g H H0. exact (history_independent_solver tbl_repo ops g repo_table_safe H H0). Qed.
+Print Assumptions history_independent_real_solver.
